@@ -6,7 +6,7 @@
    steps that does not look at the braking index survives the whole timed walk. *)
 From Coq Require Import Reals Lra Lia List Bool ZArith Arith.
 From AltModel Require Import Num Interp Powertrain Loco Consist SpeedPoints PathGeom Resist Braking TrainStep TrainEnergy TrainFull WholeSim.
-From AltProofs Require Import NumR ConsistP C10P TrainStepP SpeedPointsP PathGeomP TrainFullP WholeSplitP.
+From AltProofs Require Import NumR ConsistP C10P TrainStepP BrakingP SpeedPointsP PathGeomP TrainFullP WholeSplitP.
 Import ListNotations.
 Open Scope R_scope.
 
@@ -18,32 +18,50 @@ Notation X := (SLStateR * ConsistR)%type.
 Definition rebrake (x x' : X) : Prop :=
   snd x' = snd x /\ sl_st (fst x') = sl_st (fst x) /\ sl_cache (fst x') = sl_cache (fst x) /\ sl_fb (fst x') = sl_fb (fst x).
 
-(* [Q] is asked of every whole step on the way *)
-Inductive tw_trace (Q : X -> X -> Prop) : X -> X -> Prop :=
-| tt_refl x : tw_trace Q x x
-| tt_step e pts x x1 x2 : sl_full_step e pts fmax x = Ok x1 -> Q x x1 -> tw_trace Q x1 x2 -> tw_trace Q x x2
-| tt_rebrake x x1 x2 : rebrake x x1 -> tw_trace Q x1 x2 -> tw_trace Q x x2.
+(* [P] is known of the braking points every step runs under, [Q] is asked of every whole step on the way *)
+Inductive tw_trace (P : list BPr -> Prop) (Q : X -> X -> Prop) : X -> X -> Prop :=
+| tt_refl x : tw_trace P Q x x
+| tt_step e pts x x1 x2 : P pts -> sl_full_step e pts fmax x = Ok x1 -> Q x x1 -> tw_trace P Q x1 x2 -> tw_trace P Q x x2
+| tt_rebrake x x1 x2 : rebrake x x1 -> tw_trace P Q x1 x2 -> tw_trace P Q x x2.
 
 Definition any_step : X -> X -> Prop := fun _ _ => True.
+Definition any_pts : list BPr -> Prop := fun _ => True.
 
-Lemma tw_trace_trans Q x y z : tw_trace Q x y -> tw_trace Q y z -> tw_trace Q x z.
+Lemma tw_trace_trans P Q x y z : tw_trace P Q x y -> tw_trace P Q y z -> tw_trace P Q x z.
 Proof. induction 1; intros Hz; [exact Hz|eapply tt_step; eauto|eapply tt_rebrake; eauto]. Qed.
 
-Lemma tw_steps_trace (e : Env (F:=R)) pts te : forall fuel x x',
-  tw_steps fuel e pts fmax te x = Ok x' -> tw_trace any_step x x'.
+Lemma tw_trace_weaken (P P' : list BPr -> Prop) Q x y : (forall pts, P pts -> P' pts) -> tw_trace P Q x y -> tw_trace P' Q x y.
+Proof. intros Hw. induction 1; [apply tt_refl|eapply tt_step; eauto|eapply tt_rebrake; eauto]. Qed.
+
+(* the construction, generic in what is known of the braking points: [J] is an invariant of whole steps and of
+   re-braking under which extend_path produces points with [P] *)
+Section Build.
+Variable P : list BPr -> Prop.
+Variable J : X -> Prop.
+Hypothesis HJstep : forall e pts x x1, J x -> sl_full_step e pts fmax x = Ok x1 -> J x1.
+Hypothesis HJre : forall x x1, J x -> rebrake x x1 -> J x1.
+Hypothesis HPext : forall fuel_bp (net : list LinkR) rp links (w w1 : TimedSim (F:=R)),
+  J (tw_x w) -> tw_extend fuel_bp net rp links w = Ok w1 -> P (tw_pts w1).
+
+Lemma tw_steps_trace (e : Env (F:=R)) pts te : P pts -> forall fuel x x',
+  J x -> tw_steps fuel e pts fmax te x = Ok x' -> tw_trace P any_step x x' /\ J x'.
 Proof.
-  induction fuel as [|f IH]; intros x x' H; cbn [tw_steps] in H.
-  - destruct (nltb _ te); [discriminate|]. inversion H; subst; apply tt_refl.
-  - destruct (nltb _ te); [|inversion H; subst; apply tt_refl].
-    apply bind_ok in H. destruct H as (x1 & Hs & Hr). eapply tt_step; [exact Hs|exact I|exact (IH _ _ Hr)].
+  intros HP. induction fuel as [|f IH]; intros x x' Hj H; cbn [tw_steps] in H.
+  - destruct (nltb _ te); [discriminate|]. inversion H; subst; split; [apply tt_refl|exact Hj].
+  - destruct (nltb _ te); [|inversion H; subst; split; [apply tt_refl|exact Hj]].
+    apply bind_ok in H. destruct H as (x1 & Hs & Hr).
+    destruct (IH _ _ (HJstep _ _ _ _ Hj Hs) Hr) as (T & Hj').
+    split; [eapply tt_step; [exact HP|exact Hs|exact I|exact T]|exact Hj'].
 Qed.
 
-Lemma sl_full_run_trace (e : Env (F:=R)) pts : forall n x x',
-  sl_full_run n e pts fmax x = Ok x' -> tw_trace any_step x x'.
+Lemma sl_full_run_trace (e : Env (F:=R)) pts : P pts -> forall n x x',
+  J x -> sl_full_run n e pts fmax x = Ok x' -> tw_trace P any_step x x' /\ J x'.
 Proof.
-  induction n as [|n IH]; intros x x' H; cbn [sl_full_run] in H.
-  - inversion H; subst; apply tt_refl.
-  - apply bind_ok in H. destruct H as (x1 & Hs & Hr). eapply tt_step; [exact Hs|exact I|exact (IH _ _ Hr)].
+  intros HP. induction n as [|n IH]; intros x x' Hj H; cbn [sl_full_run] in H.
+  - inversion H; subst; split; [apply tt_refl|exact Hj].
+  - apply bind_ok in H. destruct H as (x1 & Hs & Hr).
+    destruct (IH _ _ (HJstep _ _ _ _ Hj Hs) Hr) as (T & Hj').
+    split; [eapply tt_step; [exact HP|exact Hs|exact I|exact T]|exact Hj'].
 Qed.
 
 Lemma tw_extend_rebrake fuel_bp (net : list LinkR) rp links (w w1 : TimedSim (F:=R)) :
@@ -55,39 +73,55 @@ Proof.
 Qed.
 
 Lemma tw_outer_trace fuel_bp fuel_steps (net : list LinkR) rp tl : forall fuel idx (w w' : TimedSim (F:=R)),
-  tw_outer fuel fuel_bp fuel_steps net rp fmax tl idx w = Ok w' -> tw_trace any_step (tw_x w) (tw_x w').
+  P (tw_pts w) -> J (tw_x w) ->
+  tw_outer fuel fuel_bp fuel_steps net rp fmax tl idx w = Ok w' ->
+  tw_trace P any_step (tw_x w) (tw_x w') /\ P (tw_pts w') /\ J (tw_x w').
 Proof.
-  induction fuel as [|f IH]; intros idx w w' H; cbn [tw_outer] in H.
-  - destruct (Nat.eqb idx (length tl - 1)); [|discriminate]. inversion H; subst; apply tt_refl.
-  - destruct (Nat.eqb idx (length tl - 1)); [inversion H; subst; apply tt_refl|]. cbv zeta in H.
+  induction fuel as [|f IH]; intros idx w w' HP Hj H; cbn [tw_outer] in H.
+  - destruct (Nat.eqb idx (length tl - 1)); [|discriminate]. inversion H; subst. split; [apply tt_refl|split; assumption].
+  - destruct (Nat.eqb idx (length tl - 1)); [inversion H; subst; split; [apply tt_refl|split; assumption]|]. cbv zeta in H.
     apply bind_ok in H. destruct H as (w1 & He & H). apply bind_ok in H. destruct H as (x1 & Hs & H).
-    apply IH in H. cbn [tw_x] in H.
-    eapply tt_rebrake; [exact (tw_extend_rebrake _ _ _ _ _ _ He)|].
-    eapply tw_trace_trans; [exact (tw_steps_trace _ _ _ _ _ _ Hs)|exact H].
+    pose proof (tw_extend_rebrake _ _ _ _ _ _ He) as Hre.
+    pose proof (HPext _ _ _ _ _ _ Hj He) as HP1.
+    destruct (tw_steps_trace _ _ _ HP1 _ _ _ (HJre _ _ Hj Hre) Hs) as (T1 & Hj1).
+    apply IH in H; [|exact HP1|exact Hj1]. cbn [tw_x tw_pts] in H. destruct H as (T2 & HP' & Hj').
+    split; [|split; assumption].
+    eapply tt_rebrake; [exact Hre|]. eapply tw_trace_trans; [exact T1|exact T2].
 Qed.
+
+Theorem sl_timed_walk_trace_gen fuel_bp fuel_steps (net : list LinkR) (tp : TPR) tl rp fb st cache (con : ConsistR) x' :
+  P [] -> J ({| sl_st := st; sl_cache := cache; sl_fb := fb; sl_idx := 0 |}, con) ->
+  sl_timed_walk fuel_bp fuel_steps net tp tl rp fmax fb st cache con = Ok x' ->
+  tw_trace P any_step ({| sl_st := st; sl_cache := cache; sl_fb := fb; sl_idx := 0 |}, con) x' /\ J x'.
+Proof.
+  unfold sl_timed_walk. destruct tl as [|t0 tr]; [discriminate|]. intros HP0 Hj0 H.
+  apply bind_ok in H. destruct H as (w & Ho & Hw).
+  apply tw_outer_trace in Ho; [|exact HP0|exact Hj0]. cbn [tw_x] in Ho. destruct Ho as (T & HPw & Hjw).
+  destruct (sl_full_walk_is_run _ _ _ _ _ _ _ Hw) as (n & _ & Hrun & _).
+  destruct (sl_full_run_trace _ _ HPw _ _ _ Hjw Hrun) as (T2 & Hj').
+  split; [eapply tw_trace_trans; [exact T|exact T2]|exact Hj'].
+Qed.
+End Build.
 
 (* THE structural statement *)
 Theorem sl_timed_walk_trace fuel_bp fuel_steps (net : list LinkR) (tp : TPR) tl rp fb st cache (con : ConsistR) x' :
   sl_timed_walk fuel_bp fuel_steps net tp tl rp fmax fb st cache con = Ok x' ->
-  tw_trace any_step ({| sl_st := st; sl_cache := cache; sl_fb := fb; sl_idx := 0 |}, con) x'.
+  tw_trace any_pts any_step ({| sl_st := st; sl_cache := cache; sl_fb := fb; sl_idx := 0 |}, con) x'.
 Proof.
-  unfold sl_timed_walk. destruct tl as [|t0 tr]; [discriminate|]. intros H.
-  apply bind_ok in H. destruct H as (w & Ho & Hw).
-  apply tw_outer_trace in Ho. cbn [tw_x] in Ho.
-  destruct (sl_full_walk_is_run _ _ _ _ _ _ _ Hw) as (n & _ & Hrun & _).
-  eapply tw_trace_trans; [exact Ho|exact (sl_full_run_trace _ _ _ _ _ Hrun)].
+  intros H. apply (sl_timed_walk_trace_gen any_pts (fun _ => True)) in H; try (intros; exact I).
+  exact (proj1 H).
 Qed.
 
-(* lifting: an invariant of whole steps (in every environment) that re-braking respects holds at the end, and what
-   it yields for one step has been true of every step on the way *)
-Theorem tw_trace_lift (Inv : X -> Prop) (Q : X -> X -> Prop) :
-  (forall e pts x x1, Inv x -> sl_full_step e pts fmax x = Ok x1 -> Inv x1 /\ Q x x1) ->
+(* lifting: an invariant of whole steps (in every environment whose braking points satisfy P) that re-braking respects
+   holds at the end, and what it yields for one step has been true of every step on the way *)
+Theorem tw_trace_lift (P : list BPr -> Prop) (Inv : X -> Prop) (Q : X -> X -> Prop) :
+  (forall e pts x x1, P pts -> Inv x -> sl_full_step e pts fmax x = Ok x1 -> Inv x1 /\ Q x x1) ->
   (forall x x1, Inv x -> rebrake x x1 -> Inv x1) ->
-  forall x x', tw_trace any_step x x' -> Inv x -> Inv x' /\ tw_trace Q x x'.
+  forall x x', tw_trace P any_step x x' -> Inv x -> Inv x' /\ tw_trace P Q x x'.
 Proof.
-  intros Hstep Hre x x' H. induction H as [x|e pts x x1 x2 Hs _ Ht IH|x x1 x2 Hr Ht IH]; intros Hi.
+  intros Hstep Hre x x' H. induction H as [x|e pts x x1 x2 HP Hs _ Ht IH|x x1 x2 Hr Ht IH]; intros Hi.
   - split; [exact Hi|apply tt_refl].
-  - destruct (Hstep _ _ _ _ Hi Hs) as (Hi1 & Hq). destruct (IH Hi1) as (A & B).
+  - destruct (Hstep _ _ _ _ HP Hi Hs) as (Hi1 & Hq). destruct (IH Hi1) as (A & B).
     split; [exact A|eapply tt_step; eauto].
   - destruct (IH (Hre _ _ Hi Hr)) as (A & B). split; [exact A|eapply tt_rebrake; eauto].
 Qed.
@@ -101,12 +135,12 @@ Definition split_step (pd : Pdct) (x x1 : SLStateR * ConsistR) : Prop :=
 Theorem sl_timed_walk_split fuel_bp fuel_steps (net : list LinkR) (tp : TPR) tl rp fmax fb st cache (con : ConsistR) x' :
   sl_timed_walk fuel_bp fuel_steps net tp tl rp fmax fb st cache con = Ok x' -> cinv con ->
   cinv (snd x') /\ cn_pdct (snd x') = cn_pdct con /\
-  tw_trace fmax (split_step (cn_pdct con)) ({| sl_st := st; sl_cache := cache; sl_fb := fb; sl_idx := 0 |}, con) x'.
+  tw_trace fmax any_pts (split_step (cn_pdct con)) ({| sl_st := st; sl_cache := cache; sl_fb := fb; sl_idx := 0 |}, con) x'.
 Proof.
   intros H Hc. apply sl_timed_walk_trace in H.
-  destruct (tw_trace_lift fmax (fun x => cinv (snd x) /\ cn_pdct (snd x) = cn_pdct con) (split_step (cn_pdct con))) with (3 := H)
+  destruct (tw_trace_lift fmax any_pts (fun x => cinv (snd x) /\ cn_pdct (snd x) = cn_pdct con) (split_step (cn_pdct con))) with (3 := H)
     as ((A & B) & T).
-  - intros e pts x x1 (Hi & Hp) Hs. destruct (sl_full_step_split _ _ _ _ _ Hs Hi) as (Hi1 & Hp1 & Hq).
+  - intros e pts x x1 _ (Hi & Hp) Hs. destruct (sl_full_step_split _ _ _ _ _ Hs Hi) as (Hi1 & Hp1 & Hq).
     split; [split; [exact Hi1|congruence]|]. unfold split_step. rewrite <- Hp. exact Hq.
   - intros x x1 (Hi & Hp) (Hr & _). rewrite Hr. split; assumption.
   - cbn [snd]. split; [exact Hc|reflexivity].
@@ -120,11 +154,11 @@ Definition within_step (x x1 : SLStateR * ConsistR) : Prop :=
 
 Theorem sl_timed_walk_request_within fuel_bp fuel_steps (net : list LinkR) (tp : TPR) tl rp fmax fb st cache (con : ConsistR) x' :
   sl_timed_walk fuel_bp fuel_steps net tp tl rp fmax fb st cache con = Ok x' -> cinv con ->
-  tw_trace fmax within_step ({| sl_st := st; sl_cache := cache; sl_fb := fb; sl_idx := 0 |}, con) x'.
+  tw_trace fmax any_pts within_step ({| sl_st := st; sl_cache := cache; sl_fb := fb; sl_idx := 0 |}, con) x'.
 Proof.
   intros H Hc. apply sl_timed_walk_trace in H.
-  destruct (tw_trace_lift fmax (fun x => cinv (snd x)) within_step) with (3 := H) as (_ & T).
-  - intros e pts x x1 Hi Hs. destruct (sl_full_step_split _ _ _ _ _ Hs Hi) as (Hi1 & _ & _).
+  destruct (tw_trace_lift fmax any_pts (fun x => cinv (snd x)) within_step) with (3 := H) as (_ & T).
+  - intros e pts x x1 _ Hi Hs. destruct (sl_full_step_split _ _ _ _ _ Hs Hi) as (Hi1 & _ & _).
     split; [exact Hi1|]. exact (sl_full_step_request_within _ _ _ _ _ Hs (proj2 Hi)).
   - intros x x1 Hi (Hr & _). rewrite Hr. exact Hi.
   - exact Hc.
@@ -144,13 +178,13 @@ Definition kin_step (x x1 : SLStateR * ConsistR) : Prop :=
 
 Theorem sl_timed_walk_kin fuel_bp fuel_steps (net : list LinkR) (tp : TPR) tl rp fmax fb st cache (con : ConsistR) x' :
   sl_timed_walk fuel_bp fuel_steps net tp tl rp fmax fb st cache con = Ok x' ->
-  tw_trace fmax kin_step ({| sl_st := st; sl_cache := cache; sl_fb := fb; sl_idx := 0 |}, con) x' /\
+  tw_trace fmax any_pts kin_step ({| sl_st := st; sl_cache := cache; sl_fb := fb; sl_idx := 0 |}, con) x' /\
   k_dt (ts_k (sl_st (fst x'))) = k_dt (ts_k st) /\ ts_p (sl_st (fst x')) = ts_p st.
 Proof.
   intros H. apply sl_timed_walk_trace in H.
-  destruct (tw_trace_lift fmax (fun x => k_dt (ts_k (sl_st (fst x))) = k_dt (ts_k st) /\ ts_p (sl_st (fst x)) = ts_p st) kin_step)
+  destruct (tw_trace_lift fmax any_pts (fun x => k_dt (ts_k (sl_st (fst x))) = k_dt (ts_k st) /\ ts_p (sl_st (fst x)) = ts_p st) kin_step)
     with (3 := H) as ((A & B) & T).
-  - intros e pts [s c] [s1 c1] (Hd & Hp) Hs. cbn [fst snd] in *.
+  - intros e pts [s c] [s1 c1] _ (Hd & Hp) Hs. cbn [fst snd] in *.
     destruct (sl_full_step_kin _ _ _ _ _ _ _ Hs) as (raw & Hk & Hsp & Hi).
     pose proof (sl_full_run_clock e pts fmax 1 (s, c) (s1, c1)) as Hc. cbn [sl_full_run bind] in Hc.
     rewrite Hs in Hc. cbn [bind] in Hc. specialize (Hc eq_refl). cbv zeta in Hc. cbn [fst] in Hc.
@@ -160,4 +194,41 @@ Proof.
   - intros x x1 (Hd & Hp) (_ & Hst & _). rewrite Hst. split; assumption.
   - cbn [fst sl_st]. split; reflexivity.
   - split; [exact T|]. split; assumption.
+Qed.
+
+(* C03 for a dispatched train: the braking points every step runs under come from extend_path's recalc and have
+   0 <= target <= limit; hence every saved row has 0 <= target <= limit and the speed the step started from is <= that
+   limit (hypotheses: non-negative step size and positive mass at the start - both never change) *)
+Definition limit_step (x x1 : SLStateR * ConsistR) : Prop :=
+  let k' := ts_k (sl_st (fst x1)) in
+  0 <= k_speed_target k' <= k_speed_limit k' /\ k_speed (ts_k (sl_st (fst x))) <= k_speed_limit k'.
+
+Theorem sl_timed_walk_limits fuel_bp fuel_steps (net : list LinkR) (tp : TPR) tl rp fmax fb st cache (con : ConsistR) x' :
+  sl_timed_walk fuel_bp fuel_steps net tp tl rp fmax fb st cache con = Ok x' ->
+  0 <= k_dt (ts_k st) -> 0 < mass_compound (ts_p st) ->
+  tw_trace fmax (Forall pt_ok) limit_step ({| sl_st := st; sl_cache := cache; sl_fb := fb; sl_idx := 0 |}, con) x'.
+Proof.
+  intros H Hdt Hm.
+  pose (J := fun x : SLStateR * ConsistR => k_dt (ts_k (sl_st (fst x))) = k_dt (ts_k st) /\ ts_p (sl_st (fst x)) = ts_p st).
+  assert (HJstep : forall e pts x x1, J x -> sl_full_step e pts fmax x = Ok x1 -> J x1).
+  { intros e pts [s c] [s1 c1] (Hd & Hp) Hs. unfold J in *. cbn [fst] in *.
+    pose proof (sl_full_run_clock e pts fmax 1 (s, c) (s1, c1)) as Hc. cbn [sl_full_run bind] in Hc.
+    rewrite Hs in Hc. cbn [bind] in Hc. specialize (Hc eq_refl). cbv zeta in Hc. cbn [fst] in Hc.
+    destruct Hc as (Hd1 & _ & _ & _ & Hp1). split; congruence. }
+  assert (HJre : forall x x1, J x -> rebrake x x1 -> J x1).
+  { intros x x1 (Hd & Hp) (_ & Hst & _). unfold J. rewrite Hst. split; assumption. }
+  assert (HPext : forall fbp (net0 : list LinkR) rp0 links (w w1 : TimedSim (F:=R)),
+            J (tw_x w) -> tw_extend fbp net0 rp0 links w = Ok w1 -> Forall pt_ok (tw_pts w1)).
+  { intros fbp net0 rp0 links w w1 (Hd & Hp) He. unfold tw_extend in He.
+    apply bind_ok in He. destruct He as (p & _ & He). apply bind_ok in He. destruct He as ([pts idx] & Hr & He).
+    inversion He; subst w1; clear He. cbn [tw_pts].
+    eapply bp_target_le_limit_fixed; [| | |exact Hr]; [reflexivity|rewrite Hd; exact Hdt|rewrite Hp; exact Hm]. }
+  assert (Hj0 : J ({| sl_st := st; sl_cache := cache; sl_fb := fb; sl_idx := 0 |}, con)) by (unfold J; cbn [fst sl_st]; split; reflexivity).
+  destruct (sl_timed_walk_trace_gen fmax (Forall pt_ok) J HJstep HJre HPext _ _ _ _ _ _ _ _ _ _ _ (Forall_nil _) Hj0 H) as (T & _).
+  destruct (tw_trace_lift fmax (Forall pt_ok) (fun _ => True) limit_step) with (3 := T) as (_ & T').
+  - intros e pts [s c] [s1 c1] HP _ Hs. split; [exact I|]. unfold limit_step. cbn [fst].
+    exact (sl_full_step_limit_target _ _ _ _ _ _ _ HP Hs).
+  - intros; exact I.
+  - exact I.
+  - exact T'.
 Qed.
